@@ -93,19 +93,23 @@ def dbcMessage (S : Schema) (fuel : Nat) (i : Impl) : Except DbcErr DbcMessage :
       | some (.int id) => .ok { frameId := id, name := i.name, dlc := dlc, signals := sigs }
       | _ => .error .noId
 
+/-- `buses[bus]["messages"].append(m)` on an insertion-ordered dictionary -/
+def addToBus {α : Type} (out : List (String × List α)) (bus : String) (m : α) : List (String × List α) :=
+  if out.any (·.1 == bus) then
+    out.map fun (b, ms) => if b == bus then (b, ms ++ [m]) else (b, ms)
+  else
+    out ++ [(bus, [m])]
+
+/-- the dictionary after appending every `(bus, message)` pair in order -/
+def groupByBus {α : Type} (pairs : List (String × α)) : List (String × List α) :=
+  pairs.foldl (fun out p => addToBus out p.1 p.2) []
+
 /-- `write_dbc`: the messages of every CAN binding, grouped by bus in order of first
 appearance; any failing binding fails the whole generation -/
 def expectedDbc (S : Schema) (fuel : Nat) : Except DbcErr (List (String × List DbcMessage)) := do
   let cans := S.impls.filter (·.protocol == "can")
-  let mut out : List (String × List DbcMessage) := []
-  for i in cans do
-    let m ← dbcMessage S fuel i
-    let bus := i.busName
-    if out.any (·.1 == bus) then
-      out := out.map fun (b, ms) => if b == bus then (b, ms ++ [m]) else (b, ms)
-    else
-      out := out ++ [(bus, [m])]
-  return out
+  let pairs ← cans.mapM fun i => (dbcMessage S fuel i).map fun m => (i.busName, m)
+  return groupByBus pairs
 
 /-! ## frames packed according to the layout decode to the original values (Intel) -/
 
